@@ -17,6 +17,7 @@ import (
 	"github.com/graphql-go/graphql"
 	"github.com/graphql-go/graphql/language/ast"
 
+	"verif/internal/core"
 	"verif/internal/model"
 	"verif/internal/ref/coerce"
 	"verif/internal/values"
@@ -294,6 +295,12 @@ func (e *Env) produce(t *model.TypeRef, path string, kind values.Kind, o *values
 		return 1 << 40, nil
 	case values.UnknownEnum:
 		return "no-such-internal-value", nil
+	case values.Inf:
+		return math.Inf(1), nil
+	case values.NumericString:
+		return []string{"NaN", "Inf", "-Inf", "1e400", "9223372036854775808"}[int(core.HashString(path))%5], nil
+	case values.SerializeToNil:
+		return values.TagTypedNil, nil
 	}
 	return nat(), nil
 }
@@ -376,6 +383,10 @@ func Build(m *model.Schema, seed uint64) (*Env, error) {
 						e.Log.add(Event{Kind: "serialize", Abstract: td.Name, Answer: fmt.Sprint(v)})
 					}
 					if s, ok := v.(string); ok {
+						if s == values.TagTypedNil {
+							var typedNil *string
+							return typedNil
+						}
 						return values.TagSerializePrefix + s
 					}
 					return nil
